@@ -1250,6 +1250,10 @@ impl AnchorKind {
             if let Ok(index) = suffix.parse::<usize>() {
                 if index == 0 {
                     return Err(BadAnchorReason::ZeroIndex);
+                } else if index > u16::MAX as usize {
+                    // the component count of a ligature is 16 bits, and the backend
+                    // allocates per component: don't let a name ask for gigabytes
+                    return Err(BadAnchorReason::IndexTooLarge);
                 } else {
                     return Ok(AnchorKind::Ligature {
                         group_name: name.into(),
